@@ -548,6 +548,7 @@ func runC01(c *eng.Ctx) {
 			c.Check(len(sites) > 0 && inLoop, "snapshot-emits:"+t, nil, sn,
 				"the manifest snapshot re-emits every additive record kind ("+t+"), so version state survives manifest rotation", "createFamilySnapshot never adds a "+k+" record")
 		}
+		snapshotEnumeratesStateMaps(c, sn)
 		st := c.Fn(vsT + ".createStoreSnapshot")
 		nn := c.One(st, eng.CallTo("kv/version.NewNextFileNumber"), "NewNextFileNumber")
 		a := eng.CallArgs(nn.Instr.(*ssa.Call))[0]
@@ -843,4 +844,49 @@ func commitFamilyEditLogAtomic(c *eng.Ctx) {
 	owner(c, "call of EditLog.apply", eng.AnyCallTo("kv/version.editLog.apply", "kv/version.EditLog.apply"), []string{vsT + ".CommitFamilyEditLog", vsT + ".applyFamilyVersion"}, 2)
 	owner(c, "call of storeVersionSet.recover/applyFamilyVersion", eng.AnyCallTo(vsT+".recover", vsT+".applyFamilyVersion"), []string{vsT + ".Recover", vsT + ".recover"}, 2)
 	owner(c, "call of StoreVersionSet.Recover", eng.AnyCallTo(vsT+".Recover", "kv/version.StoreVersionSet.Recover"), []string{"kv.newStore"}, 1)
+}
+
+// snapshotEnumeratesStateMaps: the map-backed components of a version (rollup marks, replica sequences, reference marks) are
+// re-emitted by enumerating the map itself: the key of every emitted record is produced by ranging over the accessor's
+// result (or by a helper that receives that map). Looking entries up by some other collection's elements (e.g. the files
+// still listed in a level) silently drops the entries that collection does not name.
+func snapshotEnumeratesStateMaps(c *eng.Ctx, sn *ssa.Function) {
+	p := c.P
+	table := []struct{ ctor, accessor string }{
+		{"kv/version.CreateNewRollupFile", "GetRollupFiles"},
+		{"kv/version.CreateSequence", "GetSequences"},
+		{"kv/version.CreateNewReferenceFile", "GetAllReferenceFiles"},
+	}
+	isAccessor := func(v ssa.Value, name string) bool {
+		return eng.DependsOn(v, func(x ssa.Value) bool {
+			cl, ok := x.(*ssa.Call)
+			return ok && cl.Common().IsInvoke() && cl.Common().Method.Name() == name
+		})
+	}
+	for _, t := range table {
+		sites := p.Sites(sn, eng.CallTo(t.ctor))
+		c.Check(len(sites) > 0, "snapshot-enumerates:"+t.accessor+"@found", nil, sn, "createFamilySnapshot emits "+t.ctor, "")
+		for i, s := range sites {
+			key := eng.CallArgs(s.Instr.(*ssa.Call))[0]
+			ok := eng.DependsOn(key, func(x ssa.Value) bool {
+				switch y := x.(type) {
+				case *ssa.Range:
+					return isAccessor(y.X, t.accessor)
+				case *ssa.Call:
+					if y.Common().IsInvoke() {
+						return false
+					}
+					for _, a := range y.Common().Args {
+						if _, isMap := a.Type().Underlying().(*types.Map); isMap && isAccessor(a, t.accessor) {
+							return true
+						}
+					}
+				}
+				return false
+			})
+			c.Check(ok, fmt.Sprintf("snapshot-enumerates:%s[%d]", t.accessor, i), s.Instr, sn,
+				"the key of every re-emitted "+t.ctor+" record is enumerated from "+t.accessor+"() itself, so no entry of the map is left out of the manifest snapshot",
+				"key "+p.Desc(key)+" is not produced by ranging over "+t.accessor+"()")
+		}
+	}
 }
